@@ -24,7 +24,7 @@ pub fn def() -> PropDef {
     PropDef {
         id: "C04",
         level: "model_checking",
-        rule: "explicit-state search over N real replicas of one document: events W(r,op,ts) local insert/delete at replica r with the clock pinned to any of three timestamps (every skew, including clocks stepping back), G(e,r) delivery of any previously written entry to any replica through the remote-insert path (subsumes drop, duplication, reordering of the broadcast), S(i,j,k) the first k messages of a reconciliation session i->j and then abort (k = all: complete), R(r) close and reopen replica r's store from its file; on every newly discovered state a closing phase is run for every spanning tree of the N replicas and for the complete graph: complete sessions along the edges until a full pass transfers nothing; invariants: every replica holds only entries some replica wrote (full equality incl. signatures), a session or delivery only moves a replica upward in the merge order, closing terminates within N passes and leaves every replica equal to the merge of all accepted local writes; canonical state = (written set, dump of every replica); non-trivial = states in which at least two replicas differ before closing",
+        rule: "explicit-state search over N real replicas of one document: events W(r,op,ts) local insert/delete at replica r with the clock pinned to any of three timestamps (every skew, including clocks stepping back), G(e,r) delivery of any previously written entry to any replica through the remote-insert path (subsumes drop, duplication, reordering of the broadcast), S(i,j,k) the first k messages of a reconciliation session i->j and then abort (k = all: complete), R(r) close and reopen replica r's store from its file; on every newly discovered state a closing phase is run for every spanning tree of the N replicas and for the complete graph: complete sessions along the edges until a full pass transfers nothing; invariants: every replica holds only entries some replica wrote (full equality incl. signatures), a session or delivery only moves a replica upward in the merge order, closing terminates within N passes and leaves every replica equal to the merge of all accepted local writes; canonical state = (written set, dump of every replica, kind of transaction every replica's store holds); no observation is made inside a history (the state before its last event comes from a separate replay); non-trivial = states in which at least two replicas differ before closing",
         assumptions: &[
             "iroh-gossip is abstracted as unreliable broadcast (drop / duplicate / reorder); its own delivery guarantees are not checked",
             "replicas 0 and 2 share an author, replica 1 uses a second one",
@@ -150,33 +150,51 @@ struct Replayed {
 }
 
 /// Replay a history on a fresh swarm. None if the last event is not enabled.
+///
+/// Observing a store changes the kind of transaction it holds (a dump turns an open write
+/// transaction into a read snapshot), and later operations may depend on that. The history under
+/// test therefore contains no observations: the state *before* the last event, which the
+/// per-step invariants need, comes from a replay of its own of the history without that event.
 fn replay_history(n: u8, hist: &[Ev]) -> Option<Replayed> {
+    let persistent = hist.iter().any(|e| matches!(e, Ev::R(_)));
+    let before = match hist.split_last() {
+        None => None,
+        Some((_, prefix)) => {
+            let mut rp = run_events(n, prefix, persistent, None)?;
+            let ns = ns_id(0);
+            Some(rp.swarm.parties.iter_mut().map(|p| p.dump(ns)).collect::<Vec<_>>())
+        }
+    };
+    run_events(n, hist, persistent, before)
+}
+
+fn run_events(n: u8, hist: &[Ev], persistent: bool, before_last: Option<Vec<Vec<SignedEntry>>>) -> Option<Replayed> {
     set_clock(NOW);
     let ns = ns_id(0);
-    let persistent = hist.iter().any(|e| matches!(e, Ev::R(_)));
     let mut swarm = build(n, persistent);
     let mut written: Vec<SignedEntry> = vec![];
     let mut bad: Bad = vec![];
     let mut observed = String::new();
     for (i, ev) in hist.iter().enumerate() {
-        let last = i + 1 == hist.len();
-        let before: Vec<Vec<SignedEntry>> = swarm.parties.iter_mut().map(|p| p.dump(ns)).collect();
+        let last = i + 1 == hist.len() && before_last.is_some();
         let mut step_bad: Bad = vec![];
         let mut touched: Vec<u8> = vec![];
         match *ev {
             Ev::W(r, op, ts) => {
                 let (key, val) = op.key_val();
                 let e = Spec::new(0, author_of(r), key, ts, val).signed();
-                let mut model = ModelReplica::spec(&before[r as usize]);
-                let want = match model.put(&e) {
-                    crate::refmodel::PutOutcome::Inserted { removed } => Outcome::Inserted(removed),
-                    crate::refmodel::PutOutcome::Superseded => Outcome::Newer,
-                };
                 set_clock(T0 + ts);
                 let got = sut_of(&mut swarm.parties[r as usize]).local_insert(ns, &author(author_of(r)), key, val);
                 set_clock(NOW);
-                if got != want {
-                    step_bad.push(("local_write_outcome", json!({}), format!("{ev:?}: impl={got:?} model={want:?}")));
+                if last {
+                    let mut model = ModelReplica::spec(&before_last.as_ref().unwrap()[r as usize]);
+                    let want = match model.put(&e) {
+                        crate::refmodel::PutOutcome::Inserted { removed } => Outcome::Inserted(removed),
+                        crate::refmodel::PutOutcome::Superseded => Outcome::Newer,
+                    };
+                    if got != want {
+                        step_bad.push(("local_write_outcome", json!({}), format!("{ev:?}: impl={got:?} model={want:?}")));
+                    }
                 }
                 if matches!(got, Outcome::Inserted(_)) && !written.contains(&e) {
                     written.push(e);
@@ -209,7 +227,11 @@ fn replay_history(n: u8, hist: &[Ev]) -> Option<Replayed> {
                 touched.push(r);
             }
         }
-        // invariants after every event
+        // invariants after the last event (every shorter history is a state of its own)
+        if !last {
+            continue;
+        }
+        let before = before_last.as_ref().unwrap();
         for r in 0..n {
             let now = swarm.parties[r as usize].dump(ns);
             if let Some(x) = now.iter().find(|e| !written.contains(e)) {
@@ -237,9 +259,7 @@ fn replay_history(n: u8, hist: &[Ev]) -> Option<Replayed> {
                 }
             }
         }
-        if last {
-            bad.extend(step_bad);
-        }
+        bad.extend(step_bad);
     }
     Some(Replayed {
         swarm,
@@ -298,7 +318,8 @@ fn topologies(n: u8) -> Vec<Vec<(u8, u8)>> {
 fn closing(n: u8, hist: &[Ev], topo: &[(u8, u8)]) -> Bad {
     let ns = ns_id(0);
     let mut bad = vec![];
-    let Some(mut rp) = replay_history(n, hist) else {
+    let persistent = hist.iter().any(|e| matches!(e, Ev::R(_)));
+    let Some(mut rp) = run_events(n, hist, persistent, None) else {
         return bad;
     };
     let want = ModelReplica::spec(&rp.written).dump();
@@ -369,11 +390,13 @@ fn explore(ctx: &Ctx, report: &mut Report, n: u8, ops: &[Op], depth: usize) {
                 for (o, w, d) in rp.bad.drain(..) {
                     report.violation(o, w, case.clone(), d, ordinal);
                 }
+                // hidden state first (the dumps below change it), then the observable state
+                let kinds: Vec<&'static str> = rp.swarm.parties.iter_mut().map(|p| sut_of(p).store.verif_transaction_kind()).collect();
                 let dumps: Vec<Vec<SignedEntry>> = rp.swarm.parties.iter_mut().map(|p| p.dump(ns)).collect();
                 let mut written_sorted: Vec<String> = rp.written.iter().map(crate::universe::show_entry).collect();
                 written_sorted.sort();
                 let key = format!(
-                    "{written_sorted:?}|{:?}|{}",
+                    "{written_sorted:?}|{:?}|{}|{kinds:?}",
                     dumps.iter().map(|d| show_entries(d)).collect::<Vec<_>>(),
                     rp.written.len()
                 );
